@@ -24,7 +24,7 @@ CONFIGS = ['scipy']
 BUDGET = {'quick': 16000, 'thorough': 300000}
 REQUIRED = ['area:polygon', 'area:bezier', 'area:ellipse', 'area:mixed', 'law:reversed', 'law:translated', 'law:scaled', 'law:scaled_xy',
             'law:transform', 'encloses:polygon', 'encloses:curved', 'contained:nested', 'contained:disjoint', 'contained:crossing',
-            'polygon:self_intersecting', 'polygon:concave', 'law:scaled_about_origin', 'probe:axis_parallel', 'contained:edges_as_beziers']
+            'polygon:self_intersecting', 'polygon:concave', 'law:scaled_about_origin', 'probe:axis_parallel', 'contained:edges_as_beziers', 'area:rounded_rect', 'area:chord_longer_than_twice_the_arcs']
 CASE_TIMEOUT = 60
 TIME_LIMIT = {'quick': 250, 'thorough': 3300}
 
@@ -90,7 +90,13 @@ def strategy(tier, config):
     @st.composite
     def s(draw):
         kind = draw(st.sampled_from(['poly_area', 'bez_area', 'bez_area', 'ellipse_area', 'mixed_area', 'encloses', 'encloses', 'encloses_curved',
-                                     'contained', 'contained']))
+                                     'contained', 'contained', 'rrect_area']))
+        if kind == 'rrect_area':
+            # a rectangle with quarter-circle corners; the chord length asked for is of the order of the corner arcs themselves
+            w, h = draw(st.integers(2, 12)), draw(st.integers(2, 12))
+            r = draw(st.sampled_from([0.25, 0.5, 1.0, 0.125]))
+            return {'kind': kind, 'x': draw(st.integers(-5, 5)), 'y': draw(st.integers(-5, 5)), 'w': w, 'h': h, 'r': r, 'ccw': draw(st.booleans()),
+                    'chord_factor': draw(st.sampled_from([0.2, 0.45, 0.7, 1.0, 1.6, 2.5, 4.0, 10.0]))}
         law = draw(law_s)
         lp = {'z': [draw(st.integers(-50, 50)), draw(st.integers(-50, 50))], 's': draw(st.sampled_from([2.0, 0.5, -1.0, 3.0, -2.5, 0.76, 1.0 / 3, 1.7])),
               'o': draw(st.sampled_from([None, None, [0.0, 0.0], [34.7, 26.4], [-3.1, 2.2], [1.0, -7.0], [0.1, 0.3]])),
@@ -236,8 +242,40 @@ def apply_law(ctx, path, law, lp, want, has_arc, perimeter):
     return path, w, 1e-9 * abs(w)
 
 
+def check_rrect(case, ctx):
+    """area of a rounded rectangle for chord lengths around the length of a corner arc: whatever number of chords the arcs get
+    (at least one each), the inscribed polygon's area lies between the chamfered rectangle and the exact shape"""
+    from svgpathtools import Path, Line, Arc
+    x, y, w, h, r = case['x'], case['y'], case['w'], case['h'], case['r']
+    P = lambda a, b: complex(x + a, y + b)
+    segs = [Line(P(r, 0), P(w - r, 0)), Arc(P(w - r, 0), complex(r, r), 0, False, True, P(w, r)),
+            Line(P(w, r), P(w, h - r)), Arc(P(w, h - r), complex(r, r), 0, False, True, P(w - r, h)),
+            Line(P(w - r, h), P(r, h)), Arc(P(r, h), complex(r, r), 0, False, True, P(0, h - r)),
+            Line(P(0, h - r), P(0, r)), Arc(P(0, r), complex(r, r), 0, False, True, P(r, 0))]
+    path = Path(*segs)
+    sign = 1.0
+    if not case['ccw']:
+        path = path.reversed()
+        sign = -1.0
+    ctx.check(path.isclosed(), 'harness/not_closed', 'constructed outline is not closed')
+    arc_len = math.pi * r / 2
+    chord = case['chord_factor'] * arc_len
+    ctx.count('area:rounded_rect')
+    if chord > 2 * arc_len:
+        ctx.count('area:chord_longer_than_twice_the_arcs')
+    ctx.nontrivial()
+    got = float(ctx.lib('area', path.area, chord_length=chord))
+    exact = w * h - (4 - math.pi) * r * r
+    chamfer = w * h - 2 * r * r
+    ctx.check(chamfer - 1e-9 * w * h <= sign * got <= exact + 1e-9 * w * h, 'area/rounded_rect',
+              'area(chord_length=%r) = %r for a %rx%r rectangle with corner radius %r (corner arcs %.4g long): expected between %r (corners cut straight) and %r (exact)'
+              % (chord, got, w, h, r, arc_len, sign * chamfer if sign > 0 else -exact, sign * exact if sign > 0 else -chamfer))
+
+
 def check(case, ctx):
     k = case['kind']
+    if k == 'rrect_area':
+        return check_rrect(case, ctx)
     if k in ('poly_area', 'bez_area', 'ellipse_area', 'mixed_area'):
         return check_area(case, ctx)
     if k == 'encloses':
@@ -552,7 +590,15 @@ def check_contained(case, ctx):
         # the bulge may create crossings with the outer boundary if the inner polygon is close to it: skip then
         pts = np.array([s.point(t) for s in segs for t in np.linspace(0, 1, 9)])
         fl = np.array([complex(p[0], p[1]) for p in outer])
-        dmin = min(abs(p - v) for p in pts for v in fl)
+
+        def dist_to_edges(z):
+            best = float('inf')
+            for u, v in zip(fl, np.roll(fl, -1)):
+                e = v - u
+                t = max(0.0, min(1.0, ((z - u).real * e.real + (z - u).imag * e.imag) / (abs(e) ** 2 or 1.0)))
+                best = min(best, abs(z - (u + t * e)))
+            return best
+        dmin = min(dist_to_edges(p) for p in pts)
         if dmin < 0.2 * size * f:
             ipath = poly_path(base, rep[0])
     else:
